@@ -321,6 +321,20 @@ func c15MultiFile(c *Check, pool *NodePool) {
 			"b.cjs": "const a = 'B.a'; function e() { return 'B.e' } var x = 'B.x'; let t2 = typeof t !== 'undefined' ? t : 'undef'; log('B top', a, e(), x, t2, typeof require, typeof module, typeof exports); module.exports = {a, e, x};\n",
 		}},
 	}
+	// direct eval pins the names of the scope it is in; in a bundle the top-level names are still renamed, so every
+	// pinned name of every scope with a direct eval (not only the first such sibling) must be avoided
+	pinned := "let a = 'P.a', e = 'P.e', t = 'P.t', n = 'P.n', r = 'P.r', o = 'P.o', s = 'P.s', i = 'P.i', l = 'P.l', c = 'P.c', u = 'P.u', d = 'P.d', f = 'P.f', h = 'P.h', m = 'P.m', p = 'P.p';"
+	cases = append(cases, mf{"direct-eval-in-sibling-scopes", map[string]string{
+		"g.mjs": "globalThis.zz = 1;\n",
+		"a.mjs": "import './g.mjs'; import {a as libA, counter, bump} from './b.mjs'; import {a as libC, e as cE, t as cT} from './c.mjs';\n" +
+			"function first() { let q1 = 'first.q1'; return [eval('q1'), libA, libC] }\n" +
+			"function second() { " + pinned + " bump(); return [eval('a + e + t'), libA, libC, cE, cT, counter, typeof libA] }\n" +
+			"function third() { { let w = 'blk1.w'; log(eval('w'), libA) } { " + strings.ReplaceAll(pinned, "P.", "B.") + " log(eval('e + n'), counter, libA, libC, cE, cT) } }\n" +
+			"const fourth = () => { " + strings.ReplaceAll(pinned, "P.", "F.") + " return [eval('o + s'), counter, libA, cE] };\n" +
+			"log('A', ...first(), ...second(), ...fourth()); third();\nexport {first, second};\n",
+		"b.mjs": "export const a = 'lib.a'; export let counter = 100; export function bump() { counter++ } const e = 'b.e', t = 'b.t', n = 'b.n', r = 'b.r'; log('B', a, e, t, n, r, counter, a, e, t, n, r);\n",
+		"c.mjs": "export const a = 'c.a', e = 'c.e', t = 'c.t'; const o = 'c.o', s = 'c.s', i = 'c.i'; log('C', a, e, t, o, s, i, a, e, t, o, s, i);\n",
+	}})
 	cfgs := []c02Cfg{{"esm", api.FormatESModule, api.PlatformNode, false}, {"esm-min", api.FormatESModule, api.PlatformNode, true}, {"cjs-min", api.FormatCommonJS, api.PlatformNode, true}, {"iife-min", api.FormatIIFE, api.PlatformNode, true}, {"iife", api.FormatIIFE, api.PlatformBrowser, false}}
 	for ci, cs := range cases {
 		dir := filepath.Join(root, fmt.Sprintf("m%d", ci))
